@@ -63,6 +63,11 @@ Definition resolve (rkey : nat -> nat) (j : nat) (s : lst) (r : vref) : option o
               | _ => None
               end
   | RKey d _ => match lget (l_lenv s) d with Some KDict => Some (ODict d (rkey j)) | _ => None end
+  | RAt l k => match lget (l_lenv s) l with
+               | Some KArg => Some (OArg l k)
+               | Some KComp => Some (OList l k)
+               | _ => None
+               end
   end.
 
 Fixpoint lveval (I : interp) (rkey : nat -> nat) (j : nat) (s : lst) (e : lvx) : option vec :=
@@ -129,6 +134,8 @@ Fixpoint litems (I : nat -> interp) (rkey : nat -> nat) (nops : nat) (its : list
   | [] => Some s
   | IFor body :: its' => obind (lfor I rkey body 0 nops s) (litems I rkey nops its')
   | IForOrd _ :: _ => None            (* needs the permutation: litems_ord *)
+  | IForFrom _ _ :: _ => None         (* litems_last *)
+  | IIfLast _ :: _ => None
   | IStmt c :: its' => obind (lexec1 (I 0%nat) rkey 0 s c) (litems I rkey nops its')
   end.
 (* the same with the permutation [ord] drawn in this iteration *)
@@ -138,7 +145,20 @@ Fixpoint litems_ord (I : nat -> interp) (rkey : nat -> nat) (nops : nat) (ord : 
   | [] => Some s
   | IFor body :: its' => obind (lfor I rkey body 0 nops s) (litems_ord I rkey nops ord its')
   | IForOrd body :: its' => obind (lforl I rkey body ord s) (litems_ord I rkey nops ord its')
+  | IForFrom _ _ :: _ => None
+  | IIfLast _ :: _ => None
   | IStmt c :: its' => obind (lexec1 (I 0%nat) rkey 0 s c) (litems_ord I rkey nops ord its')
+  end.
+(* main loop body with "if k == niter - 1: ...; return": [last] says whether this is the last iteration *)
+Fixpoint litems_last (I : nat -> interp) (rkey : nat -> nat) (nops : nat) (last : bool) (its : list litem) (s : lst)
+  : option lst :=
+  match its with
+  | [] => Some s
+  | IFor body :: its' => obind (lfor I rkey body 0 nops s) (litems_last I rkey nops last its')
+  | IForFrom st body :: its' => obind (lfor I rkey body st (nops - st) s) (litems_last I rkey nops last its')
+  | IIfLast body :: its' => if last then lexec (I 0%nat) rkey 0 body s else litems_last I rkey nops last its' s
+  | IForOrd _ :: _ => None
+  | IStmt c :: its' => obind (lexec1 (I 0%nat) rkey 0 s c) (litems_last I rkey nops last its')
   end.
 Fixpoint literk (n k0 : nat) (f : nat -> lst -> option lst) (s : lst) : option lst :=
   match n with O => Some s | S k => obind (f k0 s) (literk k (S k0) f) end.
